@@ -4,7 +4,7 @@ EXTENDS PersistMachine
 D1(k, v) == DictV(<< <<StrV(k), v>> >>)
 D2(k, v, k2, v2) == DictV(<< <<StrV(k), v>>, <<StrV(k2), v2>> >>)
 
-ItemP  == SchemaF(<< <<"u", StringF>>, <<"pw", With(SecureF, [method |-> "xor"])>> >>)
+ItemP  == [ctype |-> TRUE] @@ SchemaF(<< <<"u", StringF>>, <<"pw", With(SecureF, [method |-> "xor"])>> >>)   \* (a configuration TYPE: the items are instances of it)
 InnerS == SchemaF(<< <<"tok", With(SecureF, [method |-> "aes"])>>, <<"n", With(IntF, [default |-> IntV(1)])>> >>)
 VaultT == [ctype |-> TRUE, keyfile |-> "kv"] @@ SchemaF(<< <<"sec", SecureF>>, <<"inner", InnerS>> >>)
 SubP   == SchemaF(<< <<"tok", With(SecureF, [method |-> "aes"])>>, <<"port", With(IntF, [default |-> IntV(80)])>> >>)
